@@ -5,6 +5,7 @@ use crate::Ctx;
 
 pub mod common;
 pub mod diag;
+pub mod huge;
 
 pub mod c01;
 pub mod c02;
